@@ -434,4 +434,220 @@ theorem verifyLinear_hdir {nid : Option Nat} {mv mdv rdv iminv imaxv : Val} {c :
       simp only [monoOf, e]; exact_mod_cast f1
     left; rw [this]; exact ⟨rfl, by norm_num; exact hlt⟩
 
+/-! ## the monotonic-dominance loop and the "both kinds on one dimension" check
+
+Used by the COMPOSITE theorem of `linear_lib.project` (Props/C06Compose.lean): the monotonic-dominance
+stage keeps the signs because both dimensions of every accepted pair are increasing (`hinc`), and the
+range-dominance stage that runs after it does not disturb the monotonic-dominance inequalities
+because no dimension is used by both kinds of dominance (`verifyLinear_disjoint`). -/
+
+/-- what the monotonic-dominance loop establishes for one accepted pair: both dimensions in range and
+`monotonicities[dim] == 1` for both -/
+def MdPairOK (mono : List Atom) (p : Nat × Nat) : Prop :=
+  (p.1 < mono.length ∧ p.2 < mono.length) ∧
+    (mono.getD p.1 .none).eqNum 1 = true ∧ (mono.getD p.2 .none).eqNum 1 = true
+
+theorem linMdLoop_spec {mono : List Atom} :
+    ∀ (xs : List Item) (acc ps : List (Nat × Nat)),
+      (∀ p ∈ acc, MdPairOK mono p) →
+      linMdLoop mono xs acc = .ok ps →
+      ∀ p ∈ ps, MdPairOK mono p := by
+  intro xs
+  induction xs with
+  | nil =>
+    intro acc ps hacc h
+    simp only [linMdLoop, Except.ok.injEq] at h
+    subst h
+    intro p hp
+    exact hacc p (List.mem_reverse.mp hp)
+  | cons it rest ih =>
+    intro acc ps hacc h
+    simp only [linMdLoop, bind, Except.bind] at h
+    split at h
+    · cases h
+    · split at h
+      · cases h
+      · split at h
+        · rename_i tp a b _hlen
+          split at h
+          · cases h
+          · rename_i bad hbad
+            split at h
+            · cases h
+            · rename_i hb
+              split at h
+              · cases h
+              · rename_i hint
+                have hb' : bad = false := by simpa using hb
+                subst hb'
+                have hd := dims_ok hbad (by simpa using hint)
+                split at h
+                · cases h
+                · rename_i hmono
+                  simp only [Bool.or_eq_true, Bool.not_eq_true', not_or, Bool.not_eq_false] at hmono
+                  split at h
+                  · cases h
+                  · apply ih _ ps _ h
+                    intro p hp
+                    rcases List.mem_cons.mp hp with e | e
+                    · subst e; exact ⟨⟨hd.1.atomNat_lt, hd.2.atomNat_lt⟩, hmono.1, hmono.2⟩
+                    · exact hacc p e
+        · cases h
+
+/-- **every accepted monotonic-dominance pair**: both dimensions in range and increasing -/
+theorem verifyLinear_md {nid : Option Nat} {mv mdv rdv iminv imaxv : Val} {c : LinCfg}
+    (h : verifyLinear nid mv mdv rdv iminv imaxv = .ok c) :
+    ∀ p ∈ c.md, MdPairOK (c.mono.getD []) p := by
+  have hmd := (verifyLinear_parts h).2.2
+  intro p hp
+  unfold linMd at hmd
+  split at hmd
+  · simp only [Except.ok.injEq] at hmd
+    rw [← hmd] at hp; cases hp
+  · split at hmd
+    · cases hmd
+    · rename_i m hm
+      simp only [bind, Except.bind] at hmd
+      split at hmd
+      · cases hmd
+      · split at hmd
+        · cases hmd
+        · rename_i ps hps
+          split at hmd
+          · cases hmd
+          · simp only [pure, Except.pure, Except.ok.injEq] at hmd
+            rw [← hmd] at hp
+            have := linMdLoop_spec _ _ _ (fun q hq => by cases hq) hps p hp
+            rw [hm]
+            exact this
+
+theorem monoOf_of_eqNum_one {a : Atom} (h : a.eqNum 1 = true) : monoOf a = 1 := by
+  have f1 : ((1 : Int) : Rat).floor = 1 := Rat.floor_intCast 1
+  simp only [Atom.eqNum, beq_iff_eq] at h
+  simp only [monoOf, h]
+  exact_mod_cast f1
+
+/-- both dimensions of an accepted monotonic-dominance pair are inside the column and carry the
+monotonicity `1`: the hypothesis `hinc` of `Tfl.C06.linear_monotonic_dominance` -/
+theorem verifyLinear_hinc {nid : Option Nat} {mv mdv rdv iminv imaxv : Val} {c : LinCfg}
+    (h : verifyLinear nid mv mdv rdv iminv imaxv = .ok c) :
+    ∀ p ∈ c.md, (p.1 < c.monos.length ∧ p.2 < c.monos.length) ∧
+      getM c.monos p.1 = 1 ∧ getM c.monos p.2 = 1 := by
+  intro p hp
+  obtain ⟨hr, h1, h2⟩ := verifyLinear_md h p hp
+  rw [monos_length, getM_monos, getM_monos]
+  exact ⟨hr, monoOf_of_eqNum_one h1, monoOf_of_eqNum_one h2⟩
+
+theorem sharedDim_false {md rd : List (Nat × Nat)} (h : sharedDim md rd = false) :
+    ∀ k, Tfl.Poset.IsNode md k → ¬ Tfl.Poset.IsNode rd k := by
+  rintro k ⟨q, hq, hqk⟩ ⟨p, hp, hpk⟩
+  have : sharedDim md rd = true := by
+    simp only [sharedDim, List.any_eq_true, Bool.or_eq_true, decide_eq_true_eq]
+    refine ⟨p, hp, q, hq, ?_⟩
+    rcases hqk with e1 | e1 <;> rcases hpk with e2 | e2 <;> simp [e1, e2]
+  rw [h] at this; cases this
+
+/-- **the "same dimension in both kinds of dominance" check** (the last block of
+`linear_lib.verify_hyperparameters`): in an accepted configuration no dimension occurs both in a
+monotonic-dominance pair and in a range-dominance pair -/
+theorem verifyLinear_disjoint {nid : Option Nat} {mv mdv rdv iminv imaxv : Val} {c : LinCfg}
+    (h : verifyLinear nid mv mdv rdv iminv imaxv = .ok c) :
+    ∀ k, Tfl.Poset.IsNode c.md k → ¬ Tfl.Poset.IsNode c.rd k := by
+  have hparts := verifyLinear_parts h
+  simp only [verifyLinear, bind, Except.bind] at h
+  split at h
+  · cases h
+  · split at h
+    · cases h
+    · split at h
+      · cases h
+      · split at h
+        · cases h
+        · split at h
+          · cases h
+          · split at h
+            · cases h
+            · split at h
+              · cases h
+              · split at h
+                · cases h
+                · split at h
+                  · cases h
+                  · rename_i md hmd
+                    split at h
+                    · cases h
+                    · rename_i rd hrd
+                      split at h
+                      · cases h
+                      · rename_i hsh
+                        simp only [pure, Except.pure, Except.ok.injEq] at h
+                        subst h
+                        simp only [Bool.and_eq_true, Bool.not_eq_true', not_and, Bool.not_eq_true] at hsh
+                        by_cases h1 : mdv.isNone = true
+                        · have : md = [] := by
+                            simp only [linMd, h1, if_true, Except.ok.injEq] at hmd
+                            exact hmd.symm
+                          subst this
+                          rintro k ⟨q, hq, _⟩; cases hq
+                        · by_cases h2 : rdv.isNone = true
+                          · have : rd = [] := by
+                              simp only [linRd, h2, if_true, Except.ok.injEq] at hrd
+                              exact hrd.symm
+                            subst this
+                            rintro k _ ⟨q, hq, _⟩; cases hq
+                          · exact sharedDim_false (hsh ⟨by simpa using h1, by simpa using h2⟩)
+
+/-- both dimensions of an accepted range-dominance pair carry the same monotonicity -/
+theorem verifyLinear_rd_same {nid : Option Nat} {mv mdv rdv iminv imaxv : Val} {c : LinCfg}
+    (h : verifyLinear nid mv mdv rdv iminv imaxv = .ok c) :
+    ∀ p ∈ c.rd, getM c.monos p.1 = getM c.monos p.2 := by
+  intro p hp
+  obtain ⟨_, _, _, hmp⟩ := verifyLinear_rd h p hp
+  rw [getM_monos, getM_monos]
+  simp only [monoOf, hmp.1]
+
+/-- without monotonicities there are no dominances: `verify_hyperparameters` rejects dominance
+arguments when `monotonicities` is `None` (fix b89ac95), so an accepted configuration whose canonical
+monotonicities are `None` has both dominance sets empty (and `monos = []`) -/
+theorem verifyLinear_no_mono {nid : Option Nat} {mv mdv rdv iminv imaxv : Val} {c : LinCfg}
+    (h : verifyLinear nid mv mdv rdv iminv imaxv = .ok c) (hn : c.mono = Option.none) :
+    c.md = [] ∧ c.rd = [] ∧ c.monos = [] := by
+  simp only [verifyLinear, bind, Except.bind] at h
+  split at h
+  · cases h
+  · split at h
+    · cases h
+    · split at h
+      · cases h
+      · split at h
+        · cases h
+        · split at h
+          · cases h
+          · split at h
+            · cases h
+            · rename_i hdm
+              split at h
+              · cases h
+              · split at h
+                · cases h
+                · split at h
+                  · cases h
+                  · rename_i md hmd
+                    split at h
+                    · cases h
+                    · rename_i rd hrd
+                      split at h
+                      · cases h
+                      · simp only [pure, Except.pure, Except.ok.injEq] at h
+                        subst h
+                        simp only at hn
+                        subst hn
+                        simp only [Option.isNone_none, Bool.and_true, Bool.or_eq_true, Bool.not_eq_true',
+                          not_or, Bool.not_eq_false] at hdm
+                        refine ⟨?_, ?_, rfl⟩
+                        · simp only [linMd, hdm.1, if_true, Except.ok.injEq] at hmd
+                          exact hmd.symm
+                        · simp only [linRd, hdm.2, if_true, Except.ok.injEq] at hrd
+                          exact hrd.symm
+
 end Tfl.Verify
